@@ -295,13 +295,26 @@ variant('b-dispose-noop', ['C11'], H + 'request_response_responder.py',
 """, """    def dispose(self):
         pass
 """, ('C11.c', 'RequestResponseResponder.dispose'))
-variant('b-keepalive-task-not-cancelled', ['C11'], 'rsocket/rsocket_client.py',
+variant_multi('b-keepalive-task-not-cancelled', ['C11'], [
+    ('rsocket/rsocket_client.py', """        await super()._stop_tasks()
+        await cancel_if_task_exists(self._keepalive_task)
+        self._keepalive_task = None
+""", """        await super()._stop_tasks()
+        self._keepalive_task = None
+"""),
+    ('rsocket/rsocket_client.py', """    async def _finally_sender(self):
+        await cancel_if_task_exists(self._keepalive_task)
+""", """    async def _finally_sender(self):
+        pass
+""")], ('C11.e', '_keepalive_task'))
+variant('t-keepalive-task-cancelled-by-sender-only', ['C11'], 'rsocket/rsocket_client.py',
         """        await super()._stop_tasks()
         await cancel_if_task_exists(self._keepalive_task)
         self._keepalive_task = None
 """, """        await super()._stop_tasks()
         self._keepalive_task = None
-""", ('C11.e', '_keepalive_task'))
+""", kind='twin',
+        note='the keepalive task is spawned inside the sender task, whose finally block cancels it')
 variant('b-tcp-drain-unwrapped', ['C11'], 'rsocket/transports/tcp.py',
         """        with wrap_transport_exception():
             self._writer.write(serialize_prefix_with_frame_size_header(frame))
@@ -1317,6 +1330,57 @@ variant('b-send-error-on-connection-stream', ['C12'], RB,
         "        self.send_frame(exception_to_error_frame(stream_id, exception))",
         "        self.send_frame(exception_to_error_frame(CONNECTION_STREAM_ID, exception))",
         ('C12.b', 'RSocketBase.send_error'))
+variant('b-error-data-raw-argument', ['C12'], F,
+        "        frame.data = ensure_bytes(str(exception))",
+        "        frame.data = ensure_bytes(exception.args[0] if exception.args else str(exception))",
+        ('C12.g', 'exception_to_error_frame'))
+variant('b-protocol-error-data-not-text', ['C12'], RB,
+        "raise RSocketProtocolError(ErrorCode.REJECTED_SETUP, data=str(exception)) from exception",
+        "raise RSocketProtocolError(ErrorCode.REJECTED_SETUP, data=exception) from exception",
+        ('C12.g', 'RSocketProtocolError'))
+variant('t-error-data-formatted', ['C12'], F,
+        "        frame.data = ensure_bytes(str(exception))",
+        "        frame.data = ensure_bytes('%s' % (exception,))", kind='twin')
+variant('b-close-transport-narrow-except', ['C17', 'C11'], RB,
+        "                    await transport.close()\n                except Exception:",
+        "                    await transport.close()\n                except RSocketTransportError:",
+        ('C', 'a failing transport.close() is contained'))
+variant('t-close-transport-base-exception-split', ['C17', 'C11'], RB,
+        "                    await transport.close()\n                except Exception:",
+        "                    await transport.close()\n                except (RSocketTransportError, Exception):",
+        kind='twin')
+RR = 'rsocket/load_balancer/round_robin.py'
+variant('b-pool-close-gather-fail-fast', ['C11'], RR,
+        "            await asyncio.gather(*[client.close() for client in self._pool],\n                                 return_exceptions=True)",
+        "            await asyncio.gather(*[client.close() for client in self._pool])",
+        ('C11.j', 'LoadBalancerRoundRobin.close'))
+variant('b-pool-close-sequential-loop', ['C11'], RR,
+        "            await asyncio.gather(*[client.close() for client in self._pool],\n                                 return_exceptions=True)",
+        "            for client in self._pool:\n                await client.close()",
+        ('C11.j', 'LoadBalancerRoundRobin.close'))
+variant('b-pool-close-skips-first', ['C11'], RR,
+        "            await asyncio.gather(*[client.close() for client in self._pool],\n                                 return_exceptions=True)",
+        "            await asyncio.gather(*[client.close() for client in self._pool[1:]],\n                                 return_exceptions=True)",
+        ('C11.j', 'LoadBalancerRoundRobin.close'))
+variant('t-pool-close-contained-loop', ['C11'], RR,
+        "            await asyncio.gather(*[client.close() for client in self._pool],\n                                 return_exceptions=True)",
+        "            for client in self._pool:\n                try:\n                    await client.close()\n                except Exception:\n                    pass",
+        kind='twin')
+variant('b-collector-parameters-swapped', ['C06', 'C01'], 'rsocket/awaitable/collector_subscriber.py',
+        "    def __init__(self, limit_rate=MAX_REQUEST_N, limit_count=None) -> None:",
+        "    def __init__(self, limit_count=None, limit_rate=MAX_REQUEST_N) -> None:",
+        ('C06.a', 'AwaitableRSocket.request_stream'))
+variant_multi('t-collector-parameters-swapped-keyword-site', ['C06', 'C01'], [
+    ('rsocket/awaitable/collector_subscriber.py',
+     "    def __init__(self, limit_rate=MAX_REQUEST_N, limit_count=None) -> None:",
+     "    def __init__(self, limit_count=None, limit_rate=MAX_REQUEST_N) -> None:"),
+    ('rsocket/awaitable/awaitable_rsocket.py',
+     "    async def request_stream(self,\n                             payload: Payload,\n                             limit_rate=MAX_REQUEST_N) -> List[Payload]:\n        subscriber = CollectorSubscriber(limit_rate)",
+     "    async def request_stream(self,\n                             payload: Payload,\n                             limit_rate=MAX_REQUEST_N) -> List[Payload]:\n        subscriber = CollectorSubscriber(limit_rate=limit_rate)"),
+    ('rsocket/awaitable/awaitable_rsocket.py',
+     "                              sending_done: Optional[asyncio.Event] = None) -> List[Payload]:\n        subscriber = CollectorSubscriber(limit_rate)",
+     "                              sending_done: Optional[asyncio.Event] = None) -> List[Payload]:\n        subscriber = CollectorSubscriber(limit_rate=limit_rate)")],
+    kind='twin')
 variant('b-send-error-noop', ['C12'], RB,
         "        self.send_frame(exception_to_error_frame(stream_id, exception))",
         "        logger().error('error on stream %s: %s', stream_id, exception)", ('C12.b', 'RSocketBase.send_error'))
